@@ -96,6 +96,90 @@ func checkC02(w *World, r *Report) {
 	r.Rule("R02.5", "the value is the tree's value: EvalLocPathInternal navigates with the path it just popped, asks exactly the entry Navigate returned for its value and pushes exactly that value; deref pushes the path of the entry FollowLeafRef returned", 4)
 	r.guard("R02.5", func() { c02Value(w, r) })
 
+	r.Rule("R02.8", "a path is used up by the instruction that resolves it: every question put to the data tree (Navigate, BreadthSearch) is about a path taken off the path stack with PopPath — a path that stays on the stack is extended by whatever follows in the same expression", 3)
+	r.guard("R02.8", func() {
+		sym := NewSym(w)
+		sym.originStop = func(g *ssa.Function) bool { return nm(g) == "PopPath" || nm(g) == "PeakPath" }
+		n := 0
+		for _, f := range allFuncs(w.SSAPkg("xpath")) {
+			if isTestFile(w, f.Pos()) {
+				continue
+			}
+			for _, b := range f.Blocks {
+				for _, in := range b.Instrs {
+					c, ok := in.(*ssa.Call)
+					if !ok || !c.Call.IsInvoke() || (nm(c.Call.Method) != "Navigate" && nm(c.Call.Method) != "BreadthSearch") || len(c.Call.Args) == 0 {
+						continue
+					}
+					n++
+					arg := c.Call.Args[len(c.Call.Args)-1]
+					good := true
+					from := ""
+					var popped func(v ssa.Value, depth int)
+					popped = func(v ssa.Value, depth int) {
+						for _, o := range sym.Origins(v, nil, 0) {
+							if pc, isCall := o.v.(*ssa.Call); isCall && pc.Call.StaticCallee() != nil && nm(pc.Call.StaticCallee()) == "PopPath" {
+								continue
+							}
+							// a helper that is handed the path: what its callers hand it
+							if prm, isP := o.v.(*ssa.Parameter); isP && depth < 2 {
+								idx, sites := -1, 0
+								for i, q := range prm.Parent().Params {
+									if q == prm {
+										idx = i
+									}
+								}
+								for _, g := range allFuncs(w.SSAPkg("xpath")) {
+									for _, gb := range g.Blocks {
+										for _, gin := range gb.Instrs {
+											if gc, isC := gin.(*ssa.Call); isC && gc.Call.StaticCallee() == prm.Parent() && idx >= 0 && idx < len(gc.Call.Args) {
+												sites++
+												popped(gc.Call.Args[idx], depth+1)
+											}
+										}
+									}
+								}
+								if sites > 0 {
+									continue
+								}
+							}
+							good = false
+							from = o.v.String()
+						}
+					}
+					popped(arg, 0)
+					r.Check(good, "R02.8", fmt.Sprintf("%s: %s #%d", funcKey(f), nm(c.Call.Method), n), c.Pos(), "the path asked about was popped", "the tree is asked about `"+from+"`, a path that is not taken off the stack: it stays underneath the result and the next relative path or predicate key of the expression is attached to it")
+				}
+			}
+		}
+	})
+
+	r.Rule("R02.9", "every key the expression writes reaches the path: PredicatePathElemStack.TopSet records the (key, value) pair whatever the two strings are — an empty operand (the literal '', an empty leaf, a function result) is still a key", 1)
+	r.guard("R02.9", func() {
+		f := w.SSAFunc(w.Method("xpath", "PredicatePathElemStack", "TopSet"))
+		if f == nil {
+			panic(undecided{"PredicatePathElemStack.TopSet"})
+		}
+		sym := NewSym(w)
+		n := 0
+		for _, b := range f.Blocks {
+			for _, in := range b.Instrs {
+				mu, ok := in.(*ssa.MapUpdate)
+				if !ok {
+					continue
+				}
+				n++
+				cond := sym.PathCond(f.Blocks[0], b, nil)
+				uncond := !pcSat(pcNotF(cond))
+				args := len(f.Params) == 3 && mu.Key == ssa.Value(f.Params[1]) && mu.Value == ssa.Value(f.Params[2])
+				r.Check(uncond && args, "R02.9", "TopSet stores the pair", mu.Pos(), "top[key] = value, unconditionally", "the pair is stored only when `"+cond.String()+"` (or not as given): a predicate whose operand is empty is dropped and the step selects every entry")
+			}
+		}
+		if n == 0 {
+			panic(undecided{"TopSet: store into the top map"})
+		}
+	})
+
 	r.Rule("R02.7", "paths are written only by the path-stack API: every call of a non-getter method of *sdcpb.Path / *sdcpb.PathElem, every store to one of their fields and every update of a key map in package xpath is one of the reviewed writers (push element, mark absolute, attach keys); whether a method writes is decided from its own body", 3)
 	r.guard("R02.7", func() { c02PathWriters(w, r) })
 
